@@ -182,7 +182,7 @@ func (server *State) Update(ctx context.Context, req *v1alpha1.UpdateRequest) (*
 
 	opts := []state.UpdateOption{state.WithUpdateOwner(req.GetOptions().GetOwner())}
 
-	if req.GetOptions().ExpectedPhase == nil {
+	if options := req.GetOptions(); options == nil || options.ExpectedPhase == nil {
 		opts = append(opts, state.WithExpectedPhaseAny())
 	} else {
 		var expectedPhase resource.Phase
